@@ -286,7 +286,11 @@ impl<'a> Gen<'a> {
             let s = if named {
                 let name = std::format!("n{}", g);
                 self.names.push((g, name.clone()));
-                std::format!("(?<{}>{})", name, c.s)
+                if self.rng.chance(1, 2) {
+                    std::format!("(?<{}>{})", name, c.s)
+                } else {
+                    std::format!("(?P<{}>{})", name, c.s)
+                }
             } else {
                 std::format!("({})", c.s)
             };
@@ -448,6 +452,8 @@ pub fn contexts(feats: u32) -> Vec<&'static str> {
         v.push("(?=(H)\\b)\\1");
         v.push("(?<=(H)(?=))c\\1");
         v.push("(?=(?>)(H)|(b))\\1");
+        v.push("(?:(?=(H)).)+");
+        v.push("(?:(?=(H))\\w)*b");
     }
     if feats & F_COND != 0 {
         v.push("(H)?(?(1)a|b)");
@@ -548,7 +554,19 @@ pub fn alt_order(common_syntax: bool) -> Vec<String> {
 // ---------------------------------------------------------------------------
 // fixed witnesses (known findings and regression shapes), always run
 
-pub const WITNESSES: [&str; 30] = [
+pub const WITNESSES: [&str; 42] = [
+    "(?m)(b)\\n^(?!\\1)",
+    "(?m)(b?)\\n^\\1",
+    "(?m)(\\n)+^(?:\\1\\1)?",
+    "(?m)(a?)$\\n\\1",
+    "(?:a|(a))\\1",
+    "(b|(b))\\2c",
+    "(?:.|(a))\\1",
+    "(?:(?=(\\w+))\\w)+",
+    "(?:(?=(a*)).)+",
+    "(?:(?=(\\w)(\\w*)(\\d))\\w)+",
+    "(a)((b)\\3)",
+    "((a)\\2)",
     "(?=(a|ab)(?=))\\1c",
     "(?=(a|ab))\\1c",
     "(?=(?>)(a|ab))\\1c",
